@@ -75,6 +75,9 @@ def c16_load_oracle(case, trace):
             yield "load_test(%s) differs from parsing source %s and binding it to the file's signals: %s" % (f[0], f[0], r)
         elif f[2] != "byname=first":
             yield "load_test_by_name(label of test %s) is not the first test with that label: %s" % (f[0], r)
+    for t, r in trace:
+        if t == "LOADRENDER" and r.split()[-1] in ("FAILED", "PANIC"):
+            yield "the error of load_test(%s) cannot be rendered as a diagnostic (a location outside the attached source?): %s" % (r.split()[0], r)
     oob = [r for t, r in trace if t == "LOADOOB"]
     unk = [r for t, r in trace if t == "LOADUNK"]
     if oob != ["err"]:
